@@ -79,6 +79,18 @@ def world(draw, layers=(2, 40), nwn=(1, 12), max_active=3, mags=None, temps=('ct
         'cia': draw(table(nw, mag='mixed')) if 'CIA' in extras else None,
         'lpcloud': draw(fl(-1.5, 1.5)),           # cloud top as fraction of the log-pressure range
     }
+    # the FORM in which numerically ordinary axes reach the library: opacity files store wavenumbers and temperatures
+    # as whole numbers often enough (np.arange(400, 4400, 10); 300, 400, ... K), and loaders keep the file's dtype
+    form = draw(pick(['plain', 'int-wn', 'plain', 'int-T', 'plain', 'int-both', 'plain', 'plain']))
+    w['form'] = form
+    if form in ('int-wn', 'int-both'):
+        w['wn0'] = float(round(w['wn0']))
+        w['dwn'] = float(max(1, round(w['dwn'])))
+    if form in ('int-T', 'int-both'):
+        for g in gases:
+            if g.get('table'):
+                g['table']['T0'] = float(round(g['table']['T0']))
+                g['table']['dT'] = [float(max(1, round(x))) for x in g['table']['dT']]
     return w
 
 
